@@ -1,5 +1,7 @@
 import EmsModel.Core.TimeUnits
 import EmsModel.Lemmas.TimeUnits
+import EmsModel.Lemmas.TimeUnitsCal
+import EmsModel.Lemmas.TimeUnitsSpell
 /-!
 # C17 — saving with the EMS fixes: the rewritten time units and the fill-value decision
 
@@ -310,6 +312,96 @@ theorem time_instants_preserved (c : CalOps) (L : CalLaws c) (calendar units out
   · simp [decodeValue, hi, hr]
   · cases mic <;> simp [decodeValue, hi, hp, hpo, hr]
 
+/-- the default calendar name -/
+def pg : Str := "proleptic_gregorian".toList
+
+/-! ## every spelling of the quantifier -/
+
+/-- **All spellings.** Written with `T`, a blank or any other separator, with or without seconds,
+with the offset as `±HH:MM`, `±HHMM`, `±HH`, `Z` or absent, attached or after a blank: cftime reads
+the same unit, fields and offset — so the hypotheses of `format_valid` are met by every member of
+the family. -/
+theorem parseUnits_spelled (c : CalOps) (L : CalLaws c) (p : Str) (hp : p ∈ allowedUnits) (f : Fields)
+    (hv : c.valid f = true) (off : Int) (ho : off.natAbs < 1440) (sp : Spelling) (hok : sp.Ok f off) :
+    parseUnits (spellUnits p f off sp) = some (p, ⟨f, false, off⟩) := by
+  obtain ⟨hy1, hy2, _, hm, _, hd, hh, hmi, hs⟩ := L.bounds f hv
+  have hP := isPeriod_of_allowed p hp
+  have hsplit : datesplit (spellUnits p f off sp) = some (p, spellDate f off sp) := by
+    have : spellDate f off sp = dch (f.year.toNat / 1000) :: (dch (f.year.toNat / 100) ::
+        dch (f.year.toNat / 10) :: dch f.year.toNat :: ('-' :: (pad2 f.month ++ '-' :: (pad2 f.day ++ sp.sep ::
+        (pad2 f.hour ++ ':' :: (pad2 f.minute ++ ((if sp.seconds then ':' :: pad2 f.second else []) ++ tzPart off sp))))))) := by
+      simp [spellDate, pad4]
+    unfold spellUnits
+    rw [this]
+    exact datesplit_render p hP _ (isWs_dch _) _
+  have hparse := parseDate_spellDate f off sp hok ⟨by omega, by omega⟩ (by omega) (by omega) (by omega) (by omega) (by omega) ho
+  simp [parseUnits, hsplit, stripR_spellDate, hparse]
+
+/-- **The property on strings**, for every lawful calendar: any spelling of a valid reference is
+rewritten to the EMS spelling of the same unit, local fields and offset. -/
+theorem format_spelled (c : CalOps) (L : CalLaws c) (calendar : Str) (k : CalKind)
+    (hk : classifyCalendar calendar = some k) (p : Str) (f : Fields) (off : Int) (sp : Spelling)
+    (hok : sp.Ok f off) (hv : ValidInput c k p ⟨f, false, off⟩) :
+    formatTimeUnits c calendar (spellUnits p f off sp) = some (render pad4 formatOffset p f off) :=
+  format_valid c L calendar _ k hk p ⟨f, false, off⟩
+    (parseUnits_spelled c L p hv.unit f hv.valid off hv.off sp hok) hv
+
+/-! ## the concrete proleptic Gregorian calendar -/
+
+theorem same_instant_gregorian (calendar units out : Str)
+    (h : formatTimeUnits gregorian calendar units = some out) :
+    refInstant gregorian calendar out = refInstant gregorian calendar units :=
+  (same_instant gregorian gregorian_lawful calendar units out h).1
+
+theorem check_redundant_gregorian (calendar units : Str) :
+    formatTimeUnitsChecked gregorian calendar units = formatTimeUnits gregorian calendar units :=
+  check_redundant gregorian gregorian_lawful calendar units
+
+/-- any real date from year 2 to 9998, any time of day and any offset below 24 h is inside the
+quantifier (the UTC instant stays representable) -/
+theorem validInput_gregorian (p : Str) (hp : p ∈ allowedUnits) (f : Fields) (hv : gValid f = true)
+    (hy : 2 ≤ f.year ∧ f.year ≤ 9998) (off : Int) (ho : off.natAbs < 1440) :
+    ValidInput gregorian .proleptic p ⟨f, false, off⟩ := by
+  obtain ⟨_, _, hm1, hm, hd1, hd, hh, hmi, hs⟩ := (gValid_iff f).mp hv
+  have hcum : cum (isLeap f.year) f.month + f.day ≤ cum (isLeap f.year) (f.month + 1) := by
+    have := daysInMonth_eq f.year f.month hm1 hm; omega
+  have hle := cum_succ_le (isLeap f.year) f.month hm1 hm
+  have hle' : cum (isLeap f.year) (f.month + 1) ≤ 366 := by
+    cases h : isLeap f.year <;> simp [h] at hle <;> omega
+  have hlo : gToSec firstFields = -62135596800 := by decide
+  have hhi : gToSec lastFields = 253402300799 := by decide
+  have hby : daysBeforeYear f.year ≥ 365 ∧ daysBeforeYear f.year ≤ 3651329 := by
+    unfold daysBeforeYear; omega
+  refine ⟨hp, hv, ho, rfl, ?_, ?_, rfl⟩
+  · show gToSec firstFields ≤ gToSec f - 60 * off
+    rw [hlo]; simp only [gToSec, toDays, unixDay]; omega
+  · show gToSec f - 60 * off ≤ gToSec lastFields
+    rw [hhi]; simp only [gToSec, toDays, unixDay]; omega
+
+/-- **End to end, no hypothesis left about the calendar**: for every unit, every real date from
+year 2 to 9998, every time of day, every offset below 24 h and every spelling of the family, the
+formatter returns the EMS form, and that string denotes the instant `local time − offset`. -/
+theorem ems_rewrite_gregorian (p : Str) (hp : p ∈ allowedUnits) (f : Fields) (hv : gValid f = true)
+    (hy : 2 ≤ f.year ∧ f.year ≤ 9998) (off : Int) (ho : off.natAbs < 1440) (sp : Spelling)
+    (hok : sp.Ok f off) :
+    formatTimeUnits gregorian pg (spellUnits p f off sp) = some (render pad4 formatOffset p f off) ∧
+    EmsForm p (render pad4 formatOffset p f off) ∧
+    refInstant gregorian pg (render pad4 formatOffset p f off) = some (gToSec f - 60 * off, false) ∧
+    refInstant gregorian pg (spellUnits p f off sp) = some (gToSec f - 60 * off, false) := by
+  have hvi := validInput_gregorian p hp f hv hy off ho
+  have hfmt := format_spelled gregorian gregorian_lawful pg .proleptic (by decide) p f off sp hok hvi
+  have hsame := same_instant_gregorian pg _ _ hfmt
+  have hpu := parseUnits_spelled gregorian gregorian_lawful p hp f hv off ho sp hok
+  have hin : refInstant gregorian pg (spellUnits p f off sp) = some (gToSec f - 60 * off, false) := by
+    have hlo' : ¬ (gregorian.toSec f - 60 * off < gregorian.toSec firstFields ∨
+        gregorian.toSec lastFields < gregorian.toSec f - 60 * off) := by
+      have := hvi.lo; have := hvi.hi; simp only at *; omega
+    have hcl : classifyCalendar pg = some .proleptic := by decide
+    have hval : gregorian.valid f = true := hv
+    simp only [refInstant, hcl, hpu, hp, if_true, bitsInstant, hval, hlo', pythonDate]
+    simp [gregorian]
+  exact ⟨hfmt, render_form p f off, hsame ▸ hin, hin⟩
+
 /-! ## `disable_default_fill_value` -/
 
 /-- **fill_decision.** A variable receives `_FillValue = None` in its encoding iff it is
@@ -393,8 +485,6 @@ theorem time_coordinate_none (vars : List TVar) :
 
 /-! ## Non-vacuity: concrete inputs meet the hypotheses -/
 
-def pg : Str := "proleptic_gregorian".toList
-
 example : parseUnits "days since 1990-01-01T00:00:00+08:00".toList
     = some ("days".toList, ⟨⟨1990, 1, 1, 0, 0, 0⟩, false, 480⟩) := by decide
 example : parseUnits "Hours  SINCE 2021-11-16 12:00 -0330".toList
@@ -417,6 +507,14 @@ example : formatTimeUnitsCurrent gregorian pg "days since 0990-01-01 00:00:00 +1
     = some "days since 990-01-01 00:00:00 +10:00".toList := by decide
 example : formatTimeUnitsCurrent gregorian pg "days since 1990-01-01".toList
     = some "days since 1990-01-01 00:00:00 +0:00".toList := by decide
+/-- members of the spelling family -/
+example : spellUnits "days".toList ⟨1990, 1, 1, 0, 0, 0⟩ 600 ⟨'T', true, .colon, false⟩
+    = "days since 1990-01-01T00:00:00+10:00".toList := by decide
+example : spellUnits "hours".toList ⟨2021, 11, 16, 12, 30, 0⟩ (-210) ⟨' ', false, .compact, true⟩
+    = "hours since 2021-11-16 12:30 -0330".toList := by decide
+example : (⟨'T', true, .colon, false⟩ : Spelling).Ok ⟨1990, 1, 1, 0, 0, 0⟩ 600 :=
+  ⟨by decide, by simp, by simp, by simp⟩
+example : gValid ⟨2000, 2, 29, 23, 59, 59⟩ = true := by decide
 example : timeCoordinate .generic [⟨"a", none, true⟩, ⟨"time", some "days since 1990-01-01".toList, true⟩]
     = some "time" := by decide
 example : timeCoordinate .shocStandard [⟨"time", some "days since 1990-01-01".toList, true⟩] = none := by decide
